@@ -3,6 +3,7 @@ API and (b) as an S-expression for the Lean side (source semantics / models)."""
 from __future__ import annotations
 
 import itertools
+import linecache
 import sys
 
 from common import REPO, hexs
@@ -378,7 +379,11 @@ class Builder:
                 builder.params = saved
 
         g = {"pt": pt, "_body": _body}
-        exec(src, g)
+        fname = f"<recipe-sub-{s.sid}-{len(s.params)}>"
+        # PyTeal records a formatted stack for every Expr; make the synthetic file known to
+        # linecache so that it is not searched for on disk each time
+        linecache.cache[fname] = (len(src), None, src.splitlines(True), fname)
+        exec(compile(src, fname, "exec", dont_inherit=True), g)
         fn = g["fn"]
         fn.__name__ = s.name
         return pt.Subroutine(TT[s.ret], name=s.name)(fn)
